@@ -6,6 +6,7 @@ import (
 	"fmt"
 	"os"
 	"reflect"
+	"runtime"
 	"sort"
 	"strings"
 	"testing"
@@ -286,16 +287,34 @@ func execOp(h *WHub, op Op) error {
 		// of the collector's scans, op.ID names the point)
 		var derr error
 		done := false
-		verifhook.SetCallback(op.ID, func(int) {
-			if !done {
-				done = true
-				derr = h.Dsm.DeleteDataset(op.Name)
-			}
-		})
+		if op.ID == "gc.storeObject" {
+			// whenever the collector itself persists something (the unchanged collector does not): the
+			// delete arrives while that write is under way
+			verifhook.SetFault("store.object", func(int) error {
+				if !done && gmInStack(".Cleandeleted") {
+					done = true
+					derr = h.Dsm.DeleteDataset(op.Name)
+				}
+				return nil
+			})
+		} else {
+			verifhook.SetCallback(op.ID, func(int) {
+				if !done {
+					done = true
+					derr = h.Dsm.DeleteDataset(op.Name)
+				}
+			})
+		}
 		err := h.GC.Cleandeleted()
 		verifhook.SetCallback(op.ID, nil)
+		verifhook.SetFault("store.object", nil)
 		if err != nil {
 			return fmt.Errorf("Cleandeleted: %w", err)
+		}
+		if !done && op.ID == "gc.storeObject" {
+			// the collector persisted nothing: the delete simply follows the run
+			done = true
+			derr = h.Dsm.DeleteDataset(op.Name)
 		}
 		if !done {
 			return fmt.Errorf("VERIF-INFRA the collector never reached %s", op.ID)
@@ -1144,4 +1163,19 @@ func loadReplayOps(t *testing.T) []Op {
 		t.Fatalf("VERIF-INFRA cannot parse replay case: %v", err)
 	}
 	return ops
+}
+
+// gmInStack: some function on the calling goroutine's stack ends with suffix.
+func gmInStack(suffix string) bool {
+	pcs := make([]uintptr, 48)
+	frames := runtime.CallersFrames(pcs[:runtime.Callers(2, pcs)])
+	for {
+		fr, more := frames.Next()
+		if strings.HasSuffix(fr.Function, suffix) {
+			return true
+		}
+		if !more {
+			return false
+		}
+	}
 }
